@@ -27,6 +27,10 @@ StEleBad(st) == \E k \in 1..Len(st.eles) : \E m \in 1..Len(st.eles[k].errs) :
                    (HasW(st.eles[k].marks[m], "ST") \/ HasW(st.eles[k].marks[m], "SE")) /\ st.eles[k].pos \notin {1, 2}
 StEleCodes(st) == Flatten([k \in 1..Len(st.eles) |-> Flatten([m \in 1..Len(st.eles[k].errs) |->
                      IF HasW(st.eles[k].marks[m], "ST") \/ HasW(st.eles[k].marks[m], "SE") THEN <<IF st.eles[k].pos = 1 THEN "6" ELSE "7">> ELSE <<>>])])
+(* __get_isa_errors (only when a TA1 is requested): isa_ele_err_map has 1..16, iea_ele_err_map 1..2; anything else raises KeyError *)
+IsaEleBad(isa) == \E k \in 1..Len(isa.eles) : \E m \in 1..Len(isa.eles[k].errs) :
+                    \/ HasW(isa.eles[k].marks[m], "ISA") /\ isa.eles[k].pos \notin 1..16
+                    \/ ~HasW(isa.eles[k].marks[m], "ISA") /\ HasW(isa.eles[k].marks[m], "IEA") /\ isa.eles[k].pos \notin {1, 2}
 SegHasEleErr(sg) == \E k \in 1..Len(sg.eles) : sg.eles[k].errs # <<>>
 SegErrCt(sg) == Len(sg.errs) + (IF SegHasEleErr(sg) THEN 1 ELSE 0)
 StChildErrCt(st) == Cardinality({k \in 1..Len(st.segs) : SegErrCt(st.segs[k]) > 0})
